@@ -308,3 +308,121 @@ def mask_tests(row):
             elif not s.contains(0):
                 out[k] = 1
     return out
+
+
+def _field_ty(c, of, name):
+    for cr in ([c] if not isinstance(c, (list, tuple)) else c):
+        a = cr.adts.get(of)
+        if a:
+            for v in a["variants"]:
+                for f in v["fields"]:
+                    if f["name"] == name:
+                        return f["ty"]
+    return None
+
+
+def term_bounds(c, row, t, depth=0):
+    """(lo, hi) of an integer term from the types in it (field types, cast targets, min/max) and the row's facts; None when unknown"""
+    from terms import ty_range
+    if depth > 20 or not isinstance(t, tuple) or not t:
+        return None
+    if is_const(t):
+        return const_val(t), const_val(t)
+    s = vs(row, t) if row is not None else None
+    if s is not None and not s.is_all() and s.lo() is not None and s.hi() is not None and s.lo() != float("-inf") and s.hi() != float("inf"):
+        return s.lo(), s.hi()
+    if t[0] == "cast":
+        tr = ty_range(t[2])
+        b = term_bounds(c, row, t[1], depth + 1)
+        if tr.is_all():
+            return b
+        if b is not None and b[0] >= tr.lo() and b[1] <= tr.hi():
+            return b
+        return tr.lo(), tr.hi()
+    if t[0] == "load" and t[1][0] == "fld":
+        ty = _field_ty(c, t[1][3], t[1][2])
+        tr = ty_range(ty) if ty else None
+        if tr is not None and not tr.is_all():
+            return tr.lo(), tr.hi()
+        return None
+    if t[0] == "len":
+        return 0, (1 << 63) - 1
+    if t[0] == "pure" and t[1] in ("min", "max") and len(t[2]) == 2:
+        a, b = term_bounds(c, row, t[2][0], depth + 1), term_bounds(c, row, t[2][1], depth + 1)
+        if t[1] == "min":
+            his = [q[1] for q in (a, b) if q is not None]
+            los = [q[0] for q in (a, b) if q is not None]
+            if not his:
+                return None
+            return (min(los) if len(los) == 2 else 0 if min(los) >= 0 else None) if True else None, min(his)
+        if a is not None and b is not None:
+            return max(a[0], b[0]), max(a[1], b[1])
+        return None
+    if t[0] == "bin" and len(t) > 4 and t[4]:
+        tr = ty_range(t[4])
+        if not tr.is_all():
+            return tr.lo(), tr.hi()
+    return None
+
+
+def normcasts(c, row, t, depth=0):
+    """`t` with every integer cast removed that cannot change the value on this row: widening casts, and narrowing casts whose operand is
+    proved (types, min/max, facts) to fit the target type.  Two spellings of one quantity that differ only in the widths of their
+    temporaries normalise to the same term."""
+    from terms import ty_range
+    if depth > 40 or not isinstance(t, tuple) or not t or not isinstance(t[0], str):
+        return t
+    if t[0] == "cast" and len(t) >= 3:
+        inner = normcasts(c, row, t[1], depth + 1)
+        tr = ty_range(t[2]) if isinstance(t[2], str) else None
+        if tr is None or tr.is_all():
+            return (t[0], inner) + tuple(t[2:])
+        if len(t) > 3 and t[3] == "widen":
+            b0 = term_bounds(c, row, t[1])
+            if b0 is None or b0[0] is None or b0[0] >= 0 or tr.lo() < 0:
+                return inner
+        b = term_bounds(c, row, t[1])
+        if b is not None and b[0] is not None and b[0] >= tr.lo() and b[1] <= tr.hi():
+            return inner
+        return (t[0], inner) + tuple(t[2:])
+    if t[0] == "pure" and t[1] in ("min", "max"):
+        args = tuple(normcasts(c, row, q, depth + 1) for q in t[2])
+        if len(args) == 2 and repr(args[0]) > repr(args[1]):
+            args = (args[1], args[0])
+        return (t[0], t[1], args)
+    out = []
+    for q in t:
+        if isinstance(q, tuple) and q and isinstance(q[0], str):
+            out.append(normcasts(c, row, q, depth + 1))
+        elif isinstance(q, tuple):
+            out.append(tuple(normcasts(c, row, z, depth + 1) if isinstance(z, tuple) else z for z in q))
+        else:
+            out.append(q)
+    t2 = tuple(out)
+    # a binary operation keeps its declared type tag out of the comparison when its operands were only re-typed
+    if t2[0] == "bin" and len(t2) > 4:
+        t2 = t2[:4] + ("",)
+    return t2
+
+
+def resolve_minmax(row):
+    """rewrite the row's atoms so that min(a, b) / max(a, b) whose order the path itself decides (a < b, a <= b, … among its relations) are
+    replaced by the operand they equal — `max(s, o) - min(s, o)` under `o > s` is `o - s`"""
+    order = set()
+    for lhs, rel, rhs in rels(row):
+        if rel in ("Lt", "Le"):
+            order.add((lhs, rhs))           # lhs <= rhs
+
+    def rw(t):
+        if not isinstance(t, tuple) or not t:
+            return t
+        if isinstance(t[0], str) and t[0] == "pure" and t[1] in ("min", "max") and len(t[2]) == 2:
+            a, b = rw(t[2][0]), rw(t[2][1])
+            if (a, b) in order:
+                return a if t[1] == "min" else b
+            if (b, a) in order:
+                return b if t[1] == "min" else a
+            return (t[0], t[1], (a, b))
+        return tuple(rw(q) if isinstance(q, tuple) else q for q in t)
+    row.atoms = [(rw(a), s) for a, s in row.atoms]
+    return row
